@@ -1141,6 +1141,115 @@ def _reload_set_case(ctx, rng):
         return w
 
 
+def directed_membership_phase(ctx, rng, n):
+    """membership tests (`x in obj.coll`) as an observation of both ends on PARTIALLY loaded collections: objects fetched in a
+    fresh session, collections never read as a whole, `in` interleaved with add / remove / assignment / constructor calls from
+    either end; after every call `q in p.coll` must equal `p in q.reverse` (resp. `q.ref is p`) and the model's answer; at the
+    end iteration must agree as well"""
+    reqs, cases = [], []
+    for _ in range(n):
+        kind = rng.choice(['m2m', 'm2m', 'symm', 'm2o'])
+        if kind == 'm2m': rel = {'kind': 'm2m', 'sym': False, 'a': S(0, coll=True), 'b': S(1, coll=True)}
+        elif kind == 'symm': rel = {'kind': 'symm', 'sym': True, 'a': S(0, coll=True)}
+        else: rel = {'kind': 'm2o', 'sym': False, 'a': S(0, coll=True, casc=False), 'b': S(1)}
+        schema = {'nent': 1 if kind == 'symm' else 2, 'rels': [rel]}
+        e1 = 0 if kind == 'symm' else 1
+        w = World(schema)
+        na, nb = rng.choice([2, 3]), rng.choice([2, 3])
+        ops = [{'k': 'create', 'e': 0, 'vals': [], 'tag': 0} for _ in range(na)] + [{'k': 'create', 'e': e1, 'vals': [], 'tag': 0} for _ in range(nb)]
+        A, B = list(range(na)), list(range(na, na + nb))
+        for _ in range(rng.choice([0, 1, 2, 3])):
+            ops.append({'k': 'add', 'o': rng.choice(A), 'a': [0, False], 'items': [rng.choice(B)], 'via': 'single'})
+        with db_session:
+            errs = [w.apply(op) for op in ops]
+            ok = not any(errs)
+            if ok:
+                commit()
+                pks = [o.get_pk() for o in w.objs]; classes = [type(o) for o in w.objs]
+            else: rollback()
+        if not ok:
+            w.db.disconnect(); continue
+        obs = []          # (number of calls made so far, p, key, q, answer of `q in p.key` / `p.key is q`)
+        more = []
+        hist = {'schema': schema, 'ops': ops, 'commit_reload_then': more, 'observations': 'membership tests only'}
+        rkey = (0, False) if kind == 'symm' else (0, True)
+        def member(p, key, q):
+            x, y = w.objs[p], w.objs[q]
+            attr = w.attrs[key]
+            if attr.is_collection: return y in getattr(x, w.names[key])
+            return getattr(x, w.names[key]) is y
+        def both(pa, pb, why):
+            """one pair observed from both ends"""
+            r1 = member(pa, (0, False), pb); r2 = member(pb, rkey, pa)
+            obs.append((len(more), pa, [0, False], pb, r1)); obs.append((len(more), pb, list(rkey), pa, r2))
+            ctx.case({'membership': why, 'kind': kind, 'after': len(more)}, nontrivial=False, kind='membership-pair')
+            if r1 != r2:
+                ctx.violation('membership tests on partially loaded collections: the two ends disagree', dict(hist, commit_reload_then=list(more)),
+                              observed={'a': pa, 'b': pb, 'b in a.coll': r1, 'a in b.reverse': r2, 'after': why}, key='in-disagrees:%s' % kind)
+                return False
+            return True
+        good = True
+        with db_session:
+            w.objs = LazyObjs(w, classes, list(pks))
+            try:
+                for step in range(rng.choice([3, 5, 7])):
+                    pa, pb = rng.choice(A), rng.choice(B)
+                    if rng.random() < 0.6:
+                        if rng.random() < 0.5: obs.append((len(more), pa, [0, False], pb, member(pa, (0, False), pb)))      # one end only: may record `absent`
+                        elif not both(pa, pb, 'probe'): good = False; break
+                    r = rng.random()
+                    if r < 0.3: op = {'k': 'add', 'o': pa, 'a': [0, False], 'items': [pb], 'via': rng.choice(['single', 'list', 'iadd'])}
+                    elif r < 0.55:
+                        if w.side(rkey)['coll']: op = {'k': 'add', 'o': pb, 'a': list(rkey), 'items': [pa], 'via': 'single'}
+                        else: op = {'k': 'setRef', 'o': pb, 'a': list(rkey), 'v': pa}
+                    elif r < 0.7: op = {'k': 'remove', 'o': pa, 'a': [0, False], 'items': [pb], 'via': 'single'}
+                    elif r < 0.8:
+                        if w.side(rkey)['coll']: op = {'k': 'remove', 'o': pb, 'a': list(rkey), 'items': [pa], 'via': 'single'}
+                        else: op = {'k': 'setRef', 'o': pb, 'a': list(rkey), 'v': None}
+                    elif r < 0.9:
+                        if w.side(rkey)['coll']: op = {'k': 'create', 'e': e1, 'vals': [[list(rkey), {'coll': [pa]}]], 'tag': 0}
+                        else: op = {'k': 'create', 'e': e1, 'vals': [[list(rkey), {'ref': pa}]], 'tag': 0}
+                    else: op = {'k': 'setColl', 'o': pa, 'a': [0, False], 'items': sorted(rng.sample(B, rng.choice([0, 1, 2])))}
+                    err = w.apply(op)
+                    ctx.count('membership:%s:%s:%s' % (kind, op['k'], err or 'ok'))
+                    if err is not None:
+                        ctx.divergence('a call of the membership phase failed', dict(hist, commit_reload_then=list(more) + [op]), impl=err); good = False; break
+                    more.append(op)
+                    if op['k'] == 'create': B.append(len(w.objs) - 1); pb = B[-1]
+                    if not both(pa, pb, op['k']): good = False; break
+                    if rng.random() < 0.5 and not both(rng.choice(A), rng.choice(B), 'other pair after ' + op['k']): good = False; break
+                snap = full_read(w) if good else None          # iteration at the very end
+            except Exception as e:
+                ctx.divergence('the membership phase raised', dict(hist, commit_reload_then=list(more)), impl='%s: %s' % (type(e).__name__, e)); good = False; snap = None
+            rollback()
+        w.db.disconnect()
+        if not good: continue
+        if snap is None:
+            ctx.violation('reading the collections as a whole after the membership tests raises', dict(hist, commit_reload_then=list(more)),
+                          observed=getattr(w, 'read_error', None), key='in-then-iteration-raises:%s' % kind); continue
+        bad = ends_disagree(w, snap)
+        if bad:
+            p_, kq, q_, why = bad[0]
+            ctx.violation('after membership tests and calls on partially loaded collections the two ends disagree under iteration', dict(hist, commit_reload_then=list(more)),
+                          observed={'p': p_, 'attr': list(kq), 'q': q_, 'why': why}, key='in-then-iteration-disagrees:%s' % kind); continue
+        reqs.append({'op': 'run', 'schema': w.model_schema, 'ops': [model_op(x) for x in ops] + [model_op(x) for x in more]})
+        cases.append((hist, len(ops), list(more), obs, snap))
+    if not reqs or not ctx.driver.ok: return
+    for out, (hist, base, more, obs, snap) in zip(ctx.driver('C12', reqs), cases):
+        steps = out.get('steps')
+        if steps is None:
+            ctx.divergence('driver error', hist, model=out); continue
+        for (k, p_, key, q_, ans) in obs:
+            objs = steps[base + k - 1]['objs']
+            exp = q_ in held(norm_dump(objs)[p_], (key[0], bool(key[1])))
+            if exp != ans:
+                ctx.violation('a membership test on a partially loaded collection gives the wrong answer', dict(hist, commit_reload_then=more[:k]),
+                              observed={'p': p_, 'attr': key, 'q': q_, 'in': ans}, expected=exp, key='in-wrong:%s' % hist['schema']['rels'][0]['kind']); break
+        else:
+            md = [x for x in norm_dump(steps[-1]['objs']) if x['alive']]; rd = [x for x in norm_dump(snap) if x['alive']]
+            if md != rd: ctx.divergence('state after the membership phase differs from the model', hist, model=md, impl=rd)
+
+
 def run(ctx):
     witnesses(ctx)
     rng = ctx.rng
@@ -1153,6 +1262,7 @@ def run(ctx):
     directed_pk_phase(ctx, rng, ctx.scale(30, 100))
     directed_cascade_phase(ctx, rng, ctx.scale(30, 100))
     directed_reload_set_phase(ctx, rng, ctx.scale(40, 150))
+    directed_membership_phase(ctx, rng, ctx.scale(60, 250))
     flush_fixed(ctx)
     memory_phase(ctx, rng, ctx.scale(140, 1000), ctx.scale(14, 22))
 
